@@ -28,6 +28,7 @@ def sparesKillStop (calls : List Call) : Bool :=
   calls.all fun c => match c.prim with
     | .action s _ => s != SIGKILL && s != SIGSTOP
     | .mask _ s => s != SIGKILL && s != SIGSTOP
+    | .get _ => true
 
 /-- the shape of successful calls: `[mask+ s, action s Catch]` or `[action s d, mask- s]` (d ≠ Catch),
     repeated -/
@@ -50,6 +51,10 @@ def honest (r : OpResult) (calls : List Call) : Bool :=
   | .setAction e => (e == some .systemError) == anyFailed calls
   | .ok b => b == !anyFailed calls
 
+/-- the calls that change something (`get_sigaction` only reads) -/
+def writes (calls : List Call) : List Call :=
+  calls.filter fun c => match c.prim with | .get _ => false | _ => true
+
 /-- the Spec verdict for one operation of an `sc` case (`faulted` = a call failed earlier) -/
 def scViolation (init : Nat → Disp) (faulted : Bool) (before after : FState) (r : OpResult) : Option String :=
   let calls := newCalls before after
@@ -57,7 +62,7 @@ def scViolation (init : Nat → Disp) (faulted : Bool) (before after : FState) (
   else if !honest r calls then some "system-error-misreported"
   else if faulted || anyFailed calls then none
   else if !economical before.traps calls then some "needless-syscall"
-  else if !wellBracketed calls then some "mask-order"
+  else if !wellBracketed (writes calls) then some "mask-order"
   else (specCheck init after.toState).map fun w => s!"state:{w}"
 
 end YashModel.Trap
